@@ -353,6 +353,13 @@ def run(ctx):
                                         "just after their last character (whole-lexer runs on six texts)")
     from . import lexrun as _lr17
     _lr17.rule_token_locations(ctx, "C17-diagnostic-position")
+    # ... and the LINE:COL of a failing top-level form that raises an error without a location of its own (a builtin's type / range
+    # error) is where the FORM starts — expression statement, definition, import declaration alike (statement table shared with C15)
+    try:
+        from . import c15 as _c15
+        _c15.statement_location_rule(ctx, fb, "C17-diagnostic-position")
+    except mir.AnchorMissing as e:
+        ctx.undecided("C17-diagnostic-position", "eval_ast", str(e))
     ctx.rule("C17-file-text", "the reader is handed the file's text (LF or CRLF line ends, with or without a final newline): table of the "
                               "character stream file_char_stream yields for eleven file texts, the file system answered from the text")
     ioerrors.rule_stream(ctx, "C17-file-text")
